@@ -422,7 +422,11 @@ def check_property(pid, tier, seed):
                     undecided.append(f"function {fn} could not be verified ({'; '.join(main['refused'][fn])[:200]}): panic-freedom undecided")
         for rl in main["rlimit"]:
             undecided.append("rlimit: " + rl[:300])
+        if vac["hard"] and not main["hard"]:
+            undecided.append("the vacuity twin does not type-check although the main file does (a bug of the twin generator, not of the code): " + vac["hard"][0][:300])
         for fn in needed_fns:
+            if vac["hard"]:
+                break
             if fn in main["contracted"] and f"{fn}|__vacuity" in vac["clause_lines"] and f"{fn}|__vacuity" not in vac["failed_clauses"] and fn not in vac.get("refused", {}):
                 undecided.append(f"VACUOUS: `ensures false` verified for the twin of {fn} (contradictory contract or prelude)")
         for th in alt.get("theorems", []):
